@@ -98,6 +98,10 @@ def c01(res, st, std_coq):
         fragment_roundtrip_check(res, rnd, q)
         type_correspondence(res, rnd, q)
         type_roundtrip_check(res, rnd, q)
+    else:
+        # C02_type_tokens_round_trip is about Parse/TypeModel.v + the hypothesis lex(SQL(tree)) = spelling: tie both to the code
+        type_correspondence(res, rnd, q)
+        type_roundtrip_check(res, rnd, q)
     what = {"C01": "parse -> SQL() -> parse is not stable", "C02": "SQL() drops, adds or moves a significant token"}[res.pid]
     report_oracle(res, res.pid, cases, what)
     res.add_cases(len(cases), len(set(cases)), [gens.case_lines(cases[:1]).strip()[:200], gens.case_lines(cases[-1:]).strip()[:200]])
